@@ -1,10 +1,11 @@
 """C14 -- see DESIGN.md section 5.  Deductive targets are added below the bounded import."""
 PROP = "C14"
 LEVEL = "other"
-EXPLANATION = ('Deductive: Table._get_cell_wrapper hands the cell wrapper exactly the width the terminal leaves after indentation, the vertical border characters and the per-column excess of the cell formats, with the number of columns of the table; two frame obligations decided on the AST: render() and every Table method it reaches assign no attribute of the table and call no mutating method on one (rendering does not modify the table), and the table / cell-wrapper / border modules keep no mutable module- or class-level object (one rendering cannot influence another).  Bounded: generated tables x styles x widths x indentation x ANSI/plain: rectangle, width bound, column widths, text preservation, render frame.')
+EXPLANATION = ('Deductive: Table._get_cell_wrapper hands the cell wrapper exactly the width the terminal leaves after indentation, the vertical border characters and the per-column excess of the cell formats, with the number of columns of the table; CellWrapper._refresh_column_length makes the width of a column the width of its widest cell (no cell of the column is wider than the column, so padding a cell to the column width is never negative, and the width is attained); two frame obligations decided on the AST: render() and every Table method it reaches assign no attribute of the table and call no mutating method on one (rendering does not modify the table), and the table / cell-wrapper / border modules keep no mutable module- or class-level object (one rendering cannot influence another).  Bounded: generated tables x styles x widths x indentation x ANSI/plain: rectangle, width bound, column widths, text preservation, render frame.')
 from . import io_contracts as ioc  # noqa: F401
 from . import style_contracts as sc
-TARGETS = [sc.GCW]
+from . import wrapper_contracts as wc
+TARGETS = [sc.GCW, wc.RCL]
 LEMMAS = []
 try:
     from .C14_bounded import bounded, BOUNDED_RULE  # noqa: F401
